@@ -99,6 +99,12 @@ func grid(thorough bool) []ceremony {
 			out[i].Rep += 6
 			out[i].Focus = "lateann"
 		}
+		base = len(out)
+		add(engPedersen, []int{3, 4, 5}, []int{2, 3}, 2)
+		for i := base; i < len(out); i++ {
+			out[i].Rep += 7
+			out[i].Focus = "staledeal"
+		}
 		for _, n := range []int{3, 4} {
 			for _, algo := range []string{"frost", "pedersen"} {
 				out = append(out, ceremony{Engine: engFullRun + "-" + algo, N: n, T: n - 1, V: 2, Rep: 0})
@@ -135,6 +141,13 @@ func grid(thorough bool) []ceremony {
 		out = append(out,
 			ceremony{Engine: engPedersen, N: 3, T: 2, V: 1, Rep: 6, Focus: "lateann"},
 			ceremony{Engine: engPedersen, N: 4, T: 3, V: 2, Rep: 6, Focus: "lateann"})
+		// Stale-retransmission class (short real phases): while a node collects the deals of validator
+		// k+1, a byte-identical copy of another dealer's deal of validator k reaches it again.
+		for _, nt := range [][2]int{{3, 2}, {3, 3}, {4, 2}, {4, 3}, {4, 4}} {
+			for _, vv := range []int{2, 3} {
+				out = append(out, ceremony{Engine: engPedersen, N: nt[0], T: nt[1], V: vv, Rep: 7, Focus: "staledeal"})
+			}
+		}
 		// Late-bundle class: one dealer's deal reaches one node just after that node's own deal deadline.
 		out = append(out,
 			ceremony{Engine: engPedersen, N: 3, T: 2, V: 2, Rep: 5, Focus: "latedeal"},
@@ -210,7 +223,7 @@ func TestCheck(t *testing.T) {
 	// failed or hung while duplicates were injected are information only and leave the denominator;
 	// what may be missing otherwise are ceremonies discarded for wall-clock timeouts of the real code.
 	if !r.Replaying() {
-		denom := r.Counter("ceremonies_started") - r.Counter("ceremonies_failed_under_redelivery") - r.Counter("ceremonies_no_verdict_under_fault") - r.Counter("ceremonies_no_verdict_slow_link") - r.Counter("ceremonies_no_verdict_late_deal") - r.Counter("ceremonies_no_verdict_late_announcement")
+		denom := r.Counter("ceremonies_started") - r.Counter("ceremonies_failed_under_redelivery") - r.Counter("ceremonies_no_verdict_under_fault") - r.Counter("ceremonies_no_verdict_slow_link") - r.Counter("ceremonies_no_verdict_late_deal") - r.Counter("ceremonies_no_verdict_late_announcement") - r.Counter("ceremonies_no_verdict_stale_deal")
 		if ok := r.Counter("ceremonies_succeeded"); ok*4 < denom*3 {
 			r.Inconclusive("only %d of %d counted ceremonies succeeded (%d more failed under re-delivery and are not counted), need 3/4", ok, denom, r.Counter("ceremonies_failed_under_redelivery"))
 		}
@@ -404,12 +417,20 @@ func runFakenetCeremony(c *kit.Case, cer ceremony, reg *keyRegistry, logs *faken
 		ann = &annPlan{C: pm[0], B: pm[1], K: v - 1, P: annPhase} // the last validator: the ceremony ends right after
 		phase = annPhase
 	}
+	stale := cer.Focus == "staledeal"
+	if stale {
+		// every message exactly once and in a PRNG order, plus the stale copies; short real phases so that
+		// a node that (wrongly) lets a stale bundle through runs into its timers and finishes
+		mode, dupProfile = rng.Intn(numModes-2), dupNone
+		phase = slowPhase
+	}
 	patience := 30 * time.Second
 	if cer.Engine == engPedersen {
 		// board handlers block until the protocol goroutine takes the bundle
 		patience = time.Duration(1+rng.Intn(8)) * time.Millisecond
 	}
 	sc := newSched(m.net, m.ids, r.Rand(c.Idx, 1), mode, patience, dupProfile, dupBudget, dupAll)
+	sc.staleDeals = cer.Engine == engPedersen && v >= 2 && (stale || (dupProfile != dupNone && cer.Focus == ""))
 	if cer.Engine == engFrost {
 		sc.burst = 2
 		if v, err := strconv.Atoi(os.Getenv("C11_BURST")); err == nil && v > 0 { // development aid
@@ -417,7 +438,7 @@ func runFakenetCeremony(c *kit.Case, cer ceremony, reg *keyRegistry, logs *faken
 		}
 	}
 	sc.slow, sc.late, sc.ann = slow, late, ann
-	if slow != nil || late != nil || ann != nil {
+	if slow != nil || late != nil || ann != nil || stale {
 		sc.phaseP = phase
 	}
 	hostOf := func(i int) host.Host { return m.hosts[i] }
@@ -499,7 +520,7 @@ func runFakenetCeremony(c *kit.Case, cer ceremony, reg *keyRegistry, logs *faken
 	remaining := n
 	firstFailed := -1
 	watchdog := ceremonyWatchdog
-	if plan != nil || slow != nil || late != nil || ann != nil {
+	if plan != nil || slow != nil || late != nil || ann != nil || stale {
 		watchdog = faultWatchdog
 	}
 	wd := time.NewTimer(watchdog)
@@ -627,6 +648,10 @@ wait:
 			w["slow_link_report"] = sc.slowGuard(v)
 		}
 		switch {
+		case stale:
+			// Real phase timers were running: an aborted or hung ceremony gives no verdict.
+			r.Count("ceremonies_no_verdict_stale_deal", 1)
+			r.Seen("no_verdict_stale_deal_cases", fmt.Sprintf("case %d/%s outcome=%v", c.Idx, cer, outcome))
 		case ann != nil:
 			// An announcement missed its receiver's collect timeout: the receiver fails loudly on the
 			// unchanged tree. A ceremony with a failing node gives no verdict.
@@ -754,6 +779,11 @@ wait:
 
 	r.Count("ceremonies_succeeded", 1)
 	r.Count("ceremonies_succeeded_"+cer.Engine, 1)
+	if sc.staleDeals {
+		sc.mu.Lock()
+		r.Count("pedersen_stale_previous_validator_deals_redelivered", int64(sc.staleDealsSent))
+		sc.mu.Unlock()
+	}
 	if plan != nil {
 		if plan.hasFired() {
 			r.Count("transport_faults_fired", 1)
@@ -835,6 +865,19 @@ wait:
 		timing = g
 		if !g.InsideModel {
 			sigSuffix = lateSuffix
+		}
+	case stale:
+		sc.mu.Lock()
+		inside, why := sc.deadlineCheck(v, time.Time{})
+		sent := sc.staleDealsSent
+		sc.mu.Unlock()
+		if !inside {
+			sigSuffix = lateSuffix
+		}
+		timing = map[string]any{"stale_previous_validator_deals_redelivered": sent, "every_bundle_inside_receivers_own_deadline": inside, "guard_detail": why}
+		r.Count("stale_deal_ceremonies_completed", 1)
+		if sent > 0 {
+			r.Count("stale_deal_ceremonies_completed_with_a_stale_copy_delivered", 1)
 		}
 	case ann != nil:
 		// short real phase timers ran here too: label a deal/response that missed a phase deadline
